@@ -108,13 +108,13 @@ func init() {
 			"the order in which independent children are rendered is not constrained, only children-before-parent"},
 		Bounds: func(tier string) map[string]any {
 			if tier == "thorough" {
-				return map[string]any{"trees": "T(21,1) ∪ T(6,2) ∪ T(21,2)", "configs": 40}
+				return map[string]any{"trees": "T(25,1) ∪ T(6,2) ∪ T(25,2)", "configs": 40}
 			}
-			return map[string]any{"trees": "T(21,1) ∪ T(6,2)", "configs": 40}
+			return map[string]any{"trees": "T(25,1) ∪ T(6,2)", "configs": 40}
 		},
 		Deadline: func(tier string) int {
 			if tier == "thorough" {
-				return 3000
+				return 1000
 			}
 			return 300
 		},
